@@ -381,6 +381,82 @@ def sinks_obligation(run: lib.Run, audit: dict) -> tuple[bool, bool, str, dict |
     return ok_tr, ok_py, (detail_tr if not ok_tr else detail_py), tr
 
 
+def republication_sequence(run: lib.Run) -> None:
+    """ONE engine (audit + metric sinks, with and without a decision cache), documents published one after the other with set_policy /
+    update_policy — among them documents json.dumps cannot write (a datetime / a set as a condition operand: no fingerprint), twins
+    that differ in a rule id only, sets and single policies: after EVERY publication every probe request is explained by the document
+    that is current — decision fields and audit record equal those of a fresh engine holding that document."""
+    import copy
+    import itertools as it
+    from datetime import datetime, timezone
+
+    def pol(tag: str, effect: str, extra=None, obligations=None) -> dict:
+        rule = {"id": f"{tag}-rule", "effect": effect, "actions": ["read"], "resource": {"type": "doc"}}
+        if extra is not None:
+            rule["condition"] = extra
+        if obligations:
+            rule["obligations"] = obligations
+        return {"algorithm": "deny-overrides", "rules": [rule]}
+    after = {"after": [{"attr": "context.now"}, datetime(2020, 1, 1, tzinfo=timezone.utc)]}
+    before = {"before": [{"attr": "context.now"}, datetime(2099, 1, 1, tzinfo=timezone.utc)]}
+    docs = {
+        "q3 (unserialisable, permit+mfa)": pol("q3", "permit", after, [{"type": "require_mfa"}]),
+        "q4 (unserialisable, deny)": pol("q4", "deny", before),
+        "q5 (unserialisable, permit)": pol("q5", "permit", before),
+        "plain permit": pol("plain", "permit"),
+        "plain deny": pol("stop", "deny"),
+        "set": {"algorithm": "permit-overrides", "policies": [{"id": "inner", **pol("inner", "permit")}]},
+        "set (unserialisable)": {"algorithm": "permit-overrides", "policies": [{"id": "inner2", **pol("inner2", "permit", after)}]},
+    }
+    probes = [{"sid": "u", "roles": [], "sattrs": {}, "action": "read", "rtype": "doc", "rid": "1", "rattrs": {},
+               "ctx": {"now": datetime(2024, 6, 1, tzinfo=timezone.utc), "mfa": m}} for m in (True, False)]
+    fields = ("allowed", "effect", "rule_id", "reason", "policy_id", "obligations", "challenge", "events")
+    names = list(docs)
+    seqs = [list(x) for x in it.permutations(names, 2)] + [list(x) for x in it.permutations(names[:5], 3)]
+    for seq in seqs:
+        for cached in (False, True):
+            evs: list = []
+            try:
+                g = real.make_guard(copy.deepcopy(docs[seq[0]]), {"metrics": True, "logger": True}, evs,
+                                    cache=DefaultInMemoryCache(64) if cached else None)
+            except Exception as e:  # noqa: BLE001
+                run.spec_failures.append({"part": "republication", "sequence": seq, "spec": f"engine construction raised {type(e).__name__}"})
+                return
+            for step, name in enumerate(seq):
+                if step:
+                    (g.set_policy if step % 2 else g.update_policy)(copy.deepcopy(docs[name]))
+                for q in probes:
+                    outs = []
+                    for eng in (g, None):
+                        evs2: list = []
+                        if eng is None:
+                            eng = real.make_guard(copy.deepcopy(docs[name]), {"metrics": True, "logger": True}, evs2)
+                        else:
+                            evs2 = evs
+                            evs.clear()
+                        try:
+                            d = real.call_guard(eng, q)
+                            outs.append(real.render_decision(d, list(evs2)))
+                        except Exception as e:  # noqa: BLE001
+                            outs.append({"raised": type(e).__name__})
+                    run.evaluations += 1
+                    run.count("republication")
+                    got, want = outs
+                    if "raised" in got or "raised" in want:
+                        same = got == want
+                    else:
+                        same = all(proto.json.dumps(got[f], sort_keys=True, default=str) == proto.json.dumps(want[f], sort_keys=True, default=str) for f in fields)
+                    if not same:
+                        run.spec_failures.append({"part": "republication", "sequence": seq, "publication": step, "current_document": name,
+                                                  "decision_cache": cached, "mfa_in_context": q["ctx"]["mfa"],
+                                                  "long_lived_engine": {k: v for k, v in got.items() if k != "events"},
+                                                  "fresh_engine_on_current_document": {k: v for k, v in want.items() if k != "events"},
+                                                  "spec": "after a publication the engine explains a decision by a rule / reason / obligations that are not those "
+                                                          "of the current document (a fresh engine holding it answers differently)"})
+                        return
+            run.nontrivial.add(f"republish{seq}{cached}")
+
+
 def run_cases(run: lib.Run, audit: dict, scale: int = 1):
     quick = run.tier == "quick"
     consts = audit["facts"]["consts"]
@@ -468,6 +544,7 @@ def check(run: lib.Run, audit: dict) -> int:
         ok_sk, detail_sk, which = False, detail_asm, ("Rbacx/Run/C14_core_assembly.lean (the sink block is no longer the only place that touches the "
                                                       "sinks, or is no longer run exactly once per evaluation)")
     sink_matrix_on_engine(run)
+    republication_sequence(run)
     run_cases(run, audit, scale=run.boost * (1 if ok_tr and ok_sk else 2))
     violations = []
     if (run.disagreements or not ok_tr or not ok_sk) and not run.spec_failures:
@@ -510,6 +587,12 @@ def replay(run: lib.Run, audit: dict, path: str) -> int:
     import json
     rp = json.load(open(path))
     c = rp.get("case") or rp.get("first")
+    if c and c.get("part") == "republication":
+        republication_sequence(run)
+        now = [f for f in run.spec_failures if f.get("part") == "republication"]
+        print("now:", json.dumps(now[0], default=str)[:2000] if now else "after every publication every probe is explained by the current document")
+        print("recorded:", json.dumps(c, default=str)[:2000])
+        return 1 if now else 0
     if not c or "policy" not in c or str(c.get("spec", "")).startswith("sinks of every kind") or c.get("part") == "translated source vs python":
         print("recorded:", json.dumps(c or rp.get("what"), default=str)[:2000])
         if c and str(c.get("spec", "")).startswith("sinks of every kind"):
